@@ -52,6 +52,20 @@ def sse_mechanism(cand, txt, src, is_line):
     return None
 
 
+STRING_MN = re.compile(r'^(movs|cmps|lods|stos|scas|ins|outs|xlat)')
+SHIFT_MN = re.compile(r'^(rol|ror|rcl|rcr|shl|sal|shr|sar)$')
+
+
+def seg_family(mn):
+    """Segment-override forms are keyed per mnemonic (string instructions and shifts/rotates as groups): a signature-only key
+    would hide a newly broken mnemonic behind an unrelated known one."""
+    if STRING_MN.match(mn):
+        return 'seg-override:string-op'
+    if SHIFT_MN.match(mn):
+        return 'seg-override:shift-rotate'
+    return 'seg-override:' + family(mn)
+
+
 def asm_safe(text):
     from miasmx.arch.ia32_arch import x86mnemo
     try:
@@ -79,7 +93,7 @@ def forward(sh, batch):
             fam, shape = fam0, shape0
             pcb = x86ref.prefix_class(b)
             if not fam.startswith('MMX-SSE') and 'seg' in pcb:
-                fam = 'seg-override'
+                fam = seg_family(mn)
             elif not fam.startswith('MMX-SSE') and pcb == '66' and v is not None and -128 <= v < 0 and len(b) >= 3 and b[1] in (0x83, 0x6b):
                 fam = 'imm8-sign-extended-16bit'
             sh.case(('fwd', line, b), True, cls='fwd/%s/%s' % (fam, shape))
@@ -151,7 +165,7 @@ def backward(sh, items):
             if '67' not in pc0:
                 fam = 'MMX-SSE:' + d.m.name      # one key per table row (a family-wide key would hide a newly broken row)
         elif 'seg' in pc0:
-            fam = 'seg-override'          # systematic: segment overrides are only assembled next to a register operand
+            fam = seg_family(mn)
         elif pc0 == '66' and sig.endswith(',i') and re.search(r',0xff[89a-f][0-9a-f]$', rt):
             fam = 'imm8-sign-extended-16bit'   # systematic: 66 83 /r ib forms are not among the candidates of their rendering
         sh.case(('back', b), True, cls='back/%d.%02x/p%s' % (cls[0][0], cls[0][1], cls[1]))
@@ -200,7 +214,7 @@ def run_shard(shard, tier, seed):
                 items.append((b, cls))
     else:
         modrms = (0x00, 0x05, 0x44, 0x84, 0xc1, 0xd8, 0xf9, 0x24)
-        pf = [b'\x67', b'\xf2', b'\xf3', b'\xf0', b'\x64', b'\x2e', b'\x66\x67']
+        pf = [b'\x67', b'\xf2', b'\xf3', b'\xf0', b'\x64', b'\x2e', b'\x66\x67', b'\x26', b'\x36', b'\x3e', b'\x65']
         for cell in cl:
             for b, cls in x86space.strings_for_cell(cell, 'quick', seed, prefixes=pf, modrms=modrms, sibs=[0x24, 0x65], nfill=0):
                 items.append((b, cls))
